@@ -460,21 +460,28 @@ impl MemoryImage {
     pub fn load_with_pc(&self, address: u32, bits: u8, pc: Option<u32>) -> Option<u32> {
         self.memory_reads
             .set(self.memory_reads.get().saturating_add(1));
-        let address = canonical_address(address);
-        if let Some(value) = self.load_internal_value(address, bits) {
-            return Some(value);
-        }
-        if let Some(value) = self.load_overlay_value(address, bits, pc) {
-            return Some(value);
-        }
-        let address = self.mirror_internal_ram_address(address);
+        // A wide access is the little-endian composition of byte accesses: every byte is routed on
+        // its own (internal space, overlays, RAM mirror window, 24-bit wrap), so an access that
+        // straddles a region edge touches exactly the locations the equivalent byte accesses touch.
         let bytes = bits.div_ceil(8).max(1) as usize;
         let mut value = 0u32;
         for offset in 0..bytes {
-            let idx = (address as usize + offset) & (EXTERNAL_SPACE - 1);
-            value |= (self.external[idx] as u32) << (offset * 8);
+            let byte = self.load_routed_byte(address.wrapping_add(offset as u32), pc)?;
+            value |= (byte as u32) << (offset * 8);
         }
         Some(value)
+    }
+
+    fn load_routed_byte(&self, address: u32, pc: Option<u32>) -> Option<u8> {
+        let address = canonical_address(address);
+        if let Some(value) = self.load_internal_value(address, 8) {
+            return Some(value as u8);
+        }
+        if let Some(value) = self.load_overlay_value(address, 8, pc) {
+            return Some(value as u8);
+        }
+        let address = self.mirror_internal_ram_address(address);
+        Some(self.external[(address as usize) & (EXTERNAL_SPACE - 1)])
     }
 
     pub fn store(&mut self, address: u32, bits: u8, value: u32) -> Option<()> {
@@ -490,30 +497,34 @@ impl MemoryImage {
     ) -> Option<()> {
         self.memory_writes
             .set(self.memory_writes.get().saturating_add(1));
-        let address = canonical_address(address);
-        if self.store_internal_value(address, bits, value).is_some() {
-            return Some(());
-        }
-        if self.store_overlay_value(address, bits, value, pc).is_some() {
-            return Some(());
-        }
+        // See load_with_pc: a wide store is the composition of byte stores.
         let bytes = bits.div_ceil(8).max(1) as usize;
-        let external_addr = self.mirror_internal_ram_address(address);
-        if self.is_read_only_range(external_addr, bytes as u32) {
-            return Some(());
-        }
         for offset in 0..bytes {
-            let byte = ((value >> (offset * 8)) & 0xFF) as u8;
-            let logical_addr = address + offset as u32;
-            let phys_addr = external_addr.wrapping_add(offset as u32);
-            self.record_write_capture(logical_addr, byte);
-            let slot = &mut self.external[(phys_addr as usize) & (EXTERNAL_SPACE - 1)];
-            if *slot != byte {
-                *slot = byte;
-                self.dirty.push((logical_addr, byte));
-            }
+            let byte = (value >> (offset * 8)) & 0xFF;
+            self.store_routed_byte(address.wrapping_add(offset as u32), byte, pc);
         }
         Some(())
+    }
+
+    fn store_routed_byte(&mut self, address: u32, byte: u32, pc: Option<u32>) {
+        let address = canonical_address(address);
+        if self.store_internal_value(address, 8, byte).is_some() {
+            return;
+        }
+        if self.store_overlay_value(address, 8, byte, pc).is_some() {
+            return;
+        }
+        let external_addr = self.mirror_internal_ram_address(address);
+        if self.is_read_only_range(external_addr, 1) {
+            return;
+        }
+        let byte = byte as u8;
+        self.record_write_capture(address, byte);
+        let slot = &mut self.external[(external_addr as usize) & (EXTERNAL_SPACE - 1)];
+        if *slot != byte {
+            *slot = byte;
+            self.dirty.push((address, byte));
+        }
     }
 
     pub fn drain_dirty(&mut self) -> Vec<(u32, u8)> {
